@@ -78,7 +78,7 @@ fn giant(kind: u64) -> (Sprite, &'static str) {
 }
 
 pub fn run(ctx: &Ctx) -> i32 {
-    let n = ctx.tier.pick(12_000u64, 250_000u64);
+    let n = ctx.tier.pick(60_000u64, 600_000u64);
     let programs_per_model = ctx.tier.pick(1u64, 2u64);
     let opts = ObsOpts::no_images();
     let mut sum = run_cases(ctx, n, |i| {
